@@ -649,9 +649,14 @@ def class_item_flow(ctx):
         if rs_s.startswith("Option::Some{"):
             want = [TF % "-", "!" + TF % "-[", "!" + TF % "-]"]
             _rec(d, "range-start-only-before-range-hyphen", all(w in gs for w in want), "a character is remembered as the start of a range although the following '-' is not (known to be) the range operator: the hyphen turn will take it as a subtraction or as a trailing literal and the remembered character is dropped ([a-] loses the a); guards %s" % [g for g in gs if "there_follows" in g][:5], loc)
+        # a multi-character escape (\\d, \\p{..}) cannot be the end point of a range: a turn that takes one into the
+        # addend has established that no range is being defined (else Error::Syntax)
+        takes_escape = any(n == "union" and any("escape(" in x for x in a) for n, a in calls) or any(b.locals[l].get("name") == "addend" and v != ("uninit", l) and "escape(" in strip_ver(show(v)) for l, v in env.items() if isinstance(v, tuple))
+        if takes_escape:
+            _rec(d, "escape-never-ends-a-range", ("!uninit(%d)" % DR) in gs, "a multi-character escape is taken into the class on a path that does not know defining_range to be off: after 'x-' it must be rejected (\"Multi-character escape cannot follow '-'\"), e.g. [\\sa-\\d]; guards %s" % [g for g in gs if "uninit(%d)" % DR in g][:3], loc)
         if any(g == "isSome(uninit(%d))" % RS for g in gs) and any(g.endswith("pattern[a1.idx]='-'") for g in gs):
             _rec(d, "hyphen-after-range-start-defines-range", strip_ver(show(dr)) == "true" and not any(n in ("add_char", "add_range") for n, a in calls), "a hyphen that follows a remembered range start must switch to defining a range (and add nothing)", loc)
-    for k in ("character-not-lost", "range-start-only-before-range-hyphen", "hyphen-after-range-start-defines-range", "defining-range-implies-range-start"):
+    for k in ("character-not-lost", "range-start-only-before-range-hyphen", "hyphen-after-range-start-defines-range", "defining-range-implies-range-start", "escape-never-ends-a-range"):
         if k not in d:
             d[k] = [False, "the item loop of parse_character_class no longer shows a path for clause %s (restructured; re-audit)" % k, b.loc()]
     return _emit(d)
